@@ -667,3 +667,15 @@ def describe_case(universe, leaves, prog, **extra):
     }
     d.update(extra)
     return d
+
+
+def twin_leaves(leaves):
+    """Leaf specs with the same names, columns, engines and kinds but different rows (reversed, last row dropped)."""
+    out = []
+    for name, cols, rows, eng, kind, bounds, variant in leaves:
+        if kind != "data":
+            out.append((name, cols, rows, eng, kind, bounds, variant))
+            continue
+        rows2 = tuple(rows[::-1][:-1]) if rows else ((tuple(0 for _ in cols),) if cols else ())
+        out.append((name, cols, rows2, eng, kind, (len(rows2), len(rows2)), variant))
+    return tuple(out)
